@@ -254,6 +254,9 @@ def lin_check(case, R=None):
 IRREGULAR = [   # (literal list, variables declared before the call)
     ([1, 1], 0), ([1, -1], 0), ([2, 2, 2], 0), ([1, 2, -1], 0), ([1, -2, 2, 1], 0),
     ([3, 1], 0), ([2, -3, 4], 5), ([-2], 3), ([], 2), ([-3, -2, -1], 0), ([4, 2], 0),
+    # a variable three or four times, in both polarities
+    ([1, 1, -1], 0), ([1, -1, -1], 0), ([1, -1, 1, -1], 0), ([1, 1, -1, 2], 0), ([2, -1, 1, 1, -2], 0),
+    ([1, 1, 1], 0), ([-1, -1, 2, 2], 0),
 ]
 
 
